@@ -13,9 +13,10 @@ share_hooks("AlgoTravFront", "AlgoVolume")      # the constructs of 04_travfront
 #   `sphere.get_volume()` -> volSphere sphere;  `fc.get_volume()` -> volFrustum fc;
 #   `sphere.intersect(fc).get_volume()` / `s.intersect(fc).get_volume()` -> volSF sphere fc / volSF s fc;
 #   the whole level-5 sum over cone pairs (a Monte-Carlo estimate in the library) -> volPairs sphere cones;
-#   `_get_volume_frustum_cone_mc_only(tree)` (level 10, Monte Carlo only) -> volMC.
-MODULE_IMPORTS["AlgoVolume"] = ["AlgoTravFront"]
-MODULE_MODEL_IMPORTS["AlgoVolume"] = ["PyVolume"]
+#   (T30: `_get_volume_frustum_cone_mc_only(tree)` at level 10 is NO LONGER glue: it is the call of the generated `get_volume_mc_only` of
+#   Gen/AlgoVolMC.lean (specs in 14b_volfront.py, hook F1 there); the sampler of the finished scene `mcScene` is handed through.)
+MODULE_IMPORTS["AlgoVolume"] = ["AlgoTravFront", "AlgoVolMC"]
+MODULE_MODEL_IMPORTS["AlgoVolume"] = ["PyVolume", "PyVolFront"]
 
 
 def _h_float_literal(tr, e, want):
@@ -48,7 +49,7 @@ EXPR_HOOKS.append(_h_sum_num)
 STMT_HOOKS.append(_h_nonlocal)
 
 _VOL = "swcgeom/analysis/volume.py"
-_VF = ["(volSphere : Int → K)", "(volFrustum : Int × Int → K)", "(volSF : Int → Int × Int → K)", "(volPairs : Int → List (Int × Int) → K)", "(volMC : K)"]
+_VF = ["(volSphere : Int → K)", "(volFrustum : Int × Int → K)", "(volSF : Int → Int × Int → K)", "(volPairs : Int → List (Int × Int) → K)", "(mcScene : List Py.Shape → K)"]
 spec(lean="vol_leave", module="AlgoVolume", file=_VOL, func="_get_volume_frustum_cone", nested="leave", params=["n", "children"],
      num_tparams=["K"], fparams=_VF, captures=["volume", "accuracy"],
      vars={"n": "Int", "children": "List Int", "volume": "K", "accuracy": "Int", "sphere": "Int", "cones": "List (Int × Int)", "v": "K",
@@ -66,6 +67,5 @@ spec(lean="vol_leave", module="AlgoVolume", file=_VOL, func="_get_volume_frustum
 spec(lean="get_volume_frustum_cone", module="AlgoVolume", file=_VOL, func="_get_volume_frustum_cone", params=["ids", "pids", "accuracy"],
      num_tparams=["K"], fparams=_VF, tree_cols={"tree": {"id": "ids", "pid": "pids"}}, closures={"leave": "vol_leave"},
      vars={"ids": "List Int", "pids": "List Int", "accuracy": "Int", "volume": "K"}, ret="K", fuel=True,
-     subst={"_get_volume_frustum_cone_mc_only(tree)": ("volMC", "K")},
      doc=f"`{_VOL}::_get_volume_frustum_cone` (the tree is its columns `ids`, `pids`; `tree.traverse(leave=leave)` is the TRANSLATED `Tree.traverse`)")
 FRONT_CALLERS.add("get_volume_frustum_cone")
